@@ -169,7 +169,7 @@ Definition engine_execute_dbg (so : sigops) (i : exec_input) : dres :=
             | Some l =>
                 if has_flag c F_SIGPUSHONLY && negb (is_push_only u) then rejected
                 else
-                  let p2sh := has_flag c F_BIP16 && is_p2sh (ei_lock i) in
+                  let p2sh := has_flag c F_BIP16 && negb (after_genesis c) && is_p2sh (ei_lock i) in
                   if p2sh && negb (is_push_only u) then rejected
                   else execute_dbg so c p2sh u l
             end
